@@ -179,6 +179,29 @@ def unwindset_for(work_out, patterns):
     return uws
 
 
+def focus_properties(work_out):
+    """properties decided in the functional tier: the harness' own assertions and covers (files under /verif), and
+    every unwinding assertion. Rust's panic checks inside the code under test are the C12 tier's (default_checks)."""
+    r = subprocess.run(["cbmc", "--show-properties", "--json-ui", work_out], stdout=subprocess.PIPE,
+                       stderr=subprocess.DEVNULL, text=True, env=kdrive.ENV)
+    try:
+        js = json.loads(r.stdout)
+    except Exception:
+        return None
+    names = []
+    for item in js:
+        if isinstance(item, dict) and "properties" in item:
+            for pr in item["properties"]:
+                f = pr.get("sourceLocation", {}).get("file", "")
+                cls = pr.get("class", "")
+                n = pr["name"]
+                klass = n.rsplit(".", 2)[-2] if n.count(".") >= 2 else cls
+                mine = "/verif/" in f or f.startswith("src/g_")
+                if klass == "unwind" or (mine and klass in ("assertion", "cover")):
+                    names.append(n)
+    return names
+
+
 def locate_property(work_out, check):
     """name of the property with the same description and source line in another build of the same harness"""
     r = subprocess.run(["cbmc", "--show-properties", "--json-ui", work_out], stdout=subprocess.PIPE,
@@ -245,7 +268,8 @@ def run_harness(name, th, tier, use_memo=True):
     patterns = list(registry.DEFAULT_LOOPS) + list(spec.get("loops", []))
     timeout = spec.get("timeout", 900) * (2 if tier == "thorough" else 1)
     mem = spec.get("mem_gb", 10)
-    key = hashlib.sha256(json.dumps([harness_hash(name), name, spec["path"], default_checks, unwind, patterns, mem >= 0],
+    key = hashlib.sha256(json.dumps([harness_hash(name), name, spec["path"], default_checks, unwind, patterns, mem >= 0,
+                                     bool(spec.get("focus", False) and not os.environ.get("VERIF_NO_FOCUS"))],
                                     sort_keys=True).encode()).hexdigest()[:32]
     memo_dir = os.path.join(WORK, "memo")
     os.makedirs(memo_dir, exist_ok=True)
@@ -267,10 +291,17 @@ def run_harness(name, th, tier, use_memo=True):
             res.update(status="BROKEN-HARNESS", detail=str(e)[-2000:])
             return res
         uws = unwindset_for(work_out, patterns)
+        extra = []
+        focus = spec.get("focus", False) and not os.environ.get("VERIF_NO_FOCUS")
+        if focus:
+            names = focus_properties(work_out)
+            if names:
+                for n in names:
+                    extra += ["--property", n]
         got = BUDGET.acquire(mem)
         try:
             r = kdrive.run_cbmc(work_out, unwind, uws, default_checks=default_checks, timeout_s=timeout, mem_gb=mem,
-                                log=os.path.join(wdir, "cbmc.log"))
+                                log=os.path.join(wdir, "cbmc.log"), extra=extra)
         finally:
             BUDGET.release(got)
         res.update(status=r["status"], wall_s=r["wall_s"], stats=r["stats"], unwind=unwind,
